@@ -28,7 +28,8 @@ class C20(object):
                    'exogenous variables are lists/tuples/list expressions (the template slices them)',
                    'tolerance line 1e-6..1e-9, default cap 400 of the template']
     required_counters = ('module.ran', 'module.ran.with_variables_named_like_template_locals', 'module.ran.with_variable_T_next_to_t', 'module.ran.with_own_time_variable_and_lagged_step_counter', 'equations_judged', 'vs_inprocess.compared', 'header.judged',
-                         'module.without_user_time', 'generator.reused', 'bundled.ran')
+                         'module.without_user_time', 'generator.reused', 'bundled.ran',
+                         'module.ran.with_expressions_that_look_like_lag_spellings')
 
     def n_cases(self, tier):
         return 120 if tier == 'quick' else 6000
@@ -66,6 +67,10 @@ class C20(object):
             # the user's own time variable (not built on k) while the step counter k is used only through a lag
             case['text'] = 't = LAG_tt + 0.25\nLAG_tt = t(k-1)\nLAG_kk = k(k-1)\nuk_v = 0.5*LAG_kk + 1.0\n' + case['text']
             case['own_time_and_lagged_k'] = True
+        if idx % 4 == 0:
+            # function calls whose argument is written 't - 1' / 'k - 1' (with spaces: NOT the lag spelling)
+            case['text'] = 'zl_ramp = tanh(t - 1)\nzl_step = max(k - 1, 0.0) + %s*(-1)\n' % xs[0] + case['text']
+            case['lag_lookalikes'] = True
         if idx % 4 == 1:
             # model variables named like the locals of the generated step function
             case['text'] = 'err = 0.5*%s - 1.0\ncnt = 2.0*%s + 3.0\nnew_vector = 0.25*err\n' % (xs[0], xs[0]) + case['text']
@@ -187,6 +192,8 @@ class C20(object):
                 rec.count('module.ran.with_variable_T_next_to_t')
             if case.get('template_local_names'):
                 rec.count('module.ran.with_variables_named_like_template_locals')
+            if case.get('lag_lookalikes'):
+                rec.count('module.ran.with_expressions_that_look_like_lag_spellings')
             if case.get('own_time_and_lagged_k'):
                 rec.count('module.ran.with_own_time_variable_and_lagged_step_counter')
             if not spec['time']:
